@@ -137,6 +137,12 @@ func c06Tree(t *core.Trace) []imgEntry {
 		}
 		tree = append(tree, mk(p, sz))
 	}
+	if tag%3 == 1 {
+		// a name with characters outside ASCII and a base longer than eight: in the plain tree every such character
+		// becomes one underscore before the name is cut to 8.3
+		name := "r\u00e9sum\u00e9-2024.dat"
+		tree = append(tree, mk(name, int64(len(name))+40))
+	}
 	if m := t.I("mode") % 4; m >= 2 && tag%3 == 0 {
 		// names outside Latin-1 on images with a Joliet tree (UCS-2: both bytes of every unit matter)
 		for i, name := range []string{"\u03a9\u03bc\u03ad\u03b3\u03b1.txt", "\u0444\u0430\u0439\u043b-\u0434\u0430\u043d\u043d\u044b\u0445.bin", "\u65e5\u672c\u8a9e\u30d5\u30a1\u30a4\u30eb.dat", "\u0101\u0201\u0301x.d"} {
